@@ -19,7 +19,8 @@ Inductive tfield :=
 | FName                                    (* get_name(origin, relativize, relativize_to) *)
 | FHexRest                                 (* concatenate_remaining_identifiers + unhexlify *)
 | FB64Rest (styled_chunks : bool)          (* ... + b64decode; false: base64_chunk_size forced to 0 *)
-| FTxtRest.                                (* TXT-like strings *)
+| FTxtRest                                 (* TXT-like strings *)
+| FAddr (v6 : bool).                       (* get_identifier + _as_ipv4_address / _as_ipv6_address *)
 
 Inductive tval :=
 | VInt (z : Z)
@@ -32,188 +33,6 @@ Record style := mkStyle {
   s_hex_chunk : Z; s_hex_sep : list Z; s_b64_chunk : Z; s_b64_sep : list Z; s_txt_utf8 : bool }.
 
 Record pctx := mkPctx { p_origin : option name; p_relativize : bool; p_relativize_to : option name }.
-
-(* ---------- printing ---------- *)
-(* Name.to_styled_text(style) with idna_codec None, omit_final_dot False *)
-Definition name_to_styled_text (st : style) (n : name) : res (list Z) :=
-  do n1 <- choose_relativity n (s_origin st) (s_relativize st);
-  Ok (NameM.to_text n1).
-
-Definition print_field (st : style) (f : tfield) (v : tval) : res (list Z) :=
-  match f, v with
-  | FDec _, VInt z => Ok (dec z)
-  | FTtl, VInt z => Ok (dec z)
-  | FQStr _ _ _, VBytes b => Ok (quote b)
-  | FName, VName n => name_to_styled_text st n
-  | FHexRest, VBytes b => Ok (styled_hexify b (s_hex_chunk st) (s_hex_sep st))
-  | FB64Rest c, VBytes b => Ok (styled_base64ify b (if c then s_b64_chunk st else 0) (s_b64_sep st))
-  | FTxtRest, VStrs l => Ok (txt_to_text_style (s_txt_utf8 st) l)
-  | _, _ => Internal eBadCase
-  end.
-
-Fixpoint print_fields (st : style) (fs : list tfield) (vs : list tval) : res (list Z) :=
-  match fs, vs with
-  | [], [] => Ok []
-  | [f], [v] => print_field st f v
-  | f :: fs', v :: vs' =>
-      do a <- print_field st f v; do b <- print_fields st fs' vs'; Ok (a ++ 32 :: b)
-  | _, _ => Internal eBadCase
-  end.
-
-(* ---------- parsing ---------- *)
-(* `relativize_to or origin`: an empty Name is falsy *)
-Definition relto_or_origin (c : pctx) : option name :=
-  match p_relativize_to c with
-  | Some (x :: r) => Some (x :: r)
-  | _ => p_origin c
-  end.
-
-(* Tokenizer.as_name for ASCII text (non-ASCII text goes through the IDNA codec: not modelled) *)
-Definition as_name (c : pctx) (t : token) : res name :=
-  if negb (is_identifier t) then Lib eSyntax
-  else
-    do n <- NameM.from_text (tvalue t) (p_origin c);
-    choose_relativity n (relto_or_origin c) (p_relativize c).
-
-Definition get_name (c : pctx) (st : tstate) : res (name * tstate) :=
-  do ts <- get0 st; do n <- as_name c (fst ts); Ok (n, snd ts).
-
-Definition rest_bytes (decode : list Z -> res (list Z)) (st : tstate) : res (tval * tstate) :=
-  do hs <- concatenate_remaining_identifiers st false;
-  do b <- utf8_encode (fst hs);
-  do d <- decode b;
-  Ok (VBytes d, snd hs).
-
-Definition parse_field (c : pctx) (f : tfield) (st : tstate) : res (tval * tstate) :=
-  match f with
-  | FDec maxv => do vs <- get_uint maxv st 10; Ok (VInt (fst vs), snd vs)
-  | FTtl => do vs <- get_ttl st; Ok (VInt (fst vs), snd vs)
-  | FQStr tokmax ctormax nonempty =>
-      do bs <- get_string_as_bytes st tokmax;
-      if negb (ctormax =? 0) && (zlen (fst bs) >? ctormax) then Internal iValueError
-      else if nonempty && is_nil (fst bs) then Lib eSyntax
-      else Ok (VBytes (fst bs), snd bs)
-  | FName => do ns <- get_name c st; Ok (VName (fst ns), snd ns)
-  | FHexRest => rest_bytes unhexlify st
-  | FB64Rest _ => rest_bytes b64decode st
-  | FTxtRest => do ss <- txt_from_text st; Ok (VStrs (fst ss), snd ss)
-  end.
-
-Fixpoint parse_fields (c : pctx) (fs : list tfield) (st : tstate) : res (list tval * tstate) :=
-  match fs with
-  | [] => Ok ([], st)
-  | f :: fs' =>
-      do vs <- parse_field c f st;
-      do rs <- parse_fields c fs' (snd vs);
-      Ok (fst vs :: fst rs, snd rs)
-  end.
-
-(* dns.rdata.from_text for a schema type; fw/tw = wire codec for the generic-syntax branch *)
-Definition record_from_text_gen (fw : list Z -> res (list tval)) (tw : list tval -> res (list Z))
-           (c : pctx) (fs : list tfield) (text : list Z) : res (list tval) :=
-  rdata_from_text (parse_fields c fs) fw tw text.
-
-Definition record_from_text (c : pctx) (fs : list tfield) (text : list Z) : res (list tval) :=
-  record_from_text_gen (fun _ => Internal iNotModelled) (fun _ => Internal iNotModelled) c fs text.
-
-Definition record_to_text (st : style) (fs : list tfield) (vs : list tval) : res (list Z) :=
-  print_fields st fs vs.
-
-(* ---------- the regular types ---------- *)
-Definition u8 := FDec 255. Definition u16 := FDec 65535. Definition u32 := FDec 4294967295.
-Definition cstr := FQStr 0 255 false.
-
-Definition schema_of (rdtype : Z) : option (list tfield) :=
-  if (rdtype =? 2) || (rdtype =? 5) || (rdtype =? 12) || (rdtype =? 39) || (rdtype =? 23)
-  then Some [FName]                                        (* NS CNAME PTR DNAME NSAP-PTR *)
-  else if (rdtype =? 15) || (rdtype =? 18) || (rdtype =? 21) || (rdtype =? 36) || (rdtype =? 107)
-  then Some [u16; FName]                                   (* MX AFSDB RT KX LP *)
-  else if rdtype =? 6 then Some [FName; FName; u32; FTtl; FTtl; FTtl; FTtl]        (* SOA *)
-  else if rdtype =? 17 then Some [FName; FName]                                    (* RP *)
-  else if rdtype =? 26 then Some [u16; FName; FName]                               (* PX *)
-  else if rdtype =? 33 then Some [u16; u16; u16; FName]                            (* SRV *)
-  else if rdtype =? 13 then Some [FQStr 255 255 false; FQStr 255 255 false]        (* HINFO *)
-  else if rdtype =? 19 then Some [cstr]                                            (* X25 *)
-  else if rdtype =? 35 then Some [u16; u16; cstr; cstr; cstr; FName]               (* NAPTR *)
-  else if rdtype =? 256 then Some [u16; u16; FQStr 0 0 true]                       (* URI *)
-  else if (rdtype =? 52) || (rdtype =? 53) then Some [u8; u8; u8; FHexRest]        (* TLSA SMIMEA *)
-  else if rdtype =? 44 then Some [u8; u8; FHexRest]                                (* SSHFP *)
-  else if rdtype =? 49 then Some [FB64Rest true]                                   (* DHCID *)
-  else if rdtype =? 61 then Some [FB64Rest false]                                  (* OPENPGPKEY *)
-  else if (rdtype =? 16) || (rdtype =? 99) || (rdtype =? 258) || (rdtype =? 56)
-          || (rdtype =? 261) || (rdtype =? 262)
-  then Some [FTxtRest]                                     (* TXT SPF AVC NINFO RESINFO WALLET *)
-  else None.
-
-(* ---------- harness interface ---------- *)
-Definition obs_of_val (v : tval) : obs :=
-  match v with
-  | VInt z => I z
-  | VBytes b => B b
-  | VName n => obs_of_name n
-  | VStrs l => L (map B l)
-  end.
-
-Fixpoint vals_of_obs (fs : list tfield) (os : list obs) : option (list tval) :=
-  match fs, os with
-  | [], [] => Some []
-  | f :: fs', o :: os' =>
-      match vals_of_obs fs' os' with
-      | None => None
-      | Some r =>
-          match f, o with
-          | FDec _, I z => Some (VInt z :: r)
-          | FTtl, I z => Some (VInt z :: r)
-          | FQStr _ _ _, B b => Some (VBytes b :: r)
-          | FHexRest, B b => Some (VBytes b :: r)
-          | FB64Rest _, B b => Some (VBytes b :: r)
-          | FName, L l => match name_of_obs l with Some n => Some (VName n :: r) | None => None end
-          | FTxtRest, L l => match strings_of_obs l with Some s => Some (VStrs s :: r) | None => None end
-          | _, _ => None
-          end
-      end
-  | _, _ => None
-  end.
-
-Definition style_of_obs (o : obs) : option style :=
-  match o with
-  | L [org; I rel; I hc; B hs; I bc; B bs; I u8] =>
-      match oname_of_obs org with
-      | Some og => Some (mkStyle og (rel =? 1) hc hs bc bs (u8 =? 1))
-      | None => None
-      end
-  | _ => None
-  end.
-
-Definition pctx_of_obs (o : obs) : option pctx :=
-  match o with
-  | L [org; I rel; relto] =>
-      match oname_of_obs org, oname_of_obs relto with
-      | Some og, Some rt => Some (mkPctx og (rel =? 1) rt)
-      | _, _ => None
-      end
-  | _ => None
-  end.
-
-Definition run_text (c : obs) : obs :=
-  match c with
-  | L [I 40; I rdtype; L vals; sty] =>
-      match schema_of rdtype, style_of_obs sty with
-      | Some fs, Some st =>
-          match vals_of_obs fs vals with
-          | Some vs => TokM.obs_of_res obs_of_text (record_to_text st fs vs)
-          | None => E eBadCase
-          end
-      | _, _ => E eBadCase
-      end
-  | L [I 41; I rdtype; t; ctx] =>
-      match schema_of rdtype, pctx_of_obs ctx, text_of_obs t with
-      | Some fs, Some pc, Some s =>
-          TokM.obs_of_res (fun vs => L (map obs_of_val vs)) (record_from_text pc fs s)
-      | _, _, _ => E eBadCase
-      end
-  | _ => TokM.run c
-  end.
 
 (* ---------- address text codecs: dns/ipv4.py, dns/ipv6.py ---------- *)
 (* bytes.split(sep) for a one-octet separator *)
@@ -378,6 +197,198 @@ Definition ipv6_aton_b (b : list Z) : res (list Z) :=
            end.
 
 Definition ipv6_aton (t : list Z) : res (list Z) := do b <- utf8_encode t; ipv6_aton_b b.
+
+
+(* ---------- printing ---------- *)
+(* Name.to_styled_text(style) with idna_codec None, omit_final_dot False *)
+Definition name_to_styled_text (st : style) (n : name) : res (list Z) :=
+  do n1 <- choose_relativity n (s_origin st) (s_relativize st);
+  Ok (NameM.to_text n1).
+
+Definition print_field (st : style) (f : tfield) (v : tval) : res (list Z) :=
+  match f, v with
+  | FDec _, VInt z => Ok (dec z)
+  | FTtl, VInt z => Ok (dec z)
+  | FQStr _ _ _, VBytes b => Ok (quote b)
+  | FName, VName n => name_to_styled_text st n
+  | FHexRest, VBytes b => Ok (styled_hexify b (s_hex_chunk st) (s_hex_sep st))
+  | FB64Rest c, VBytes b => Ok (styled_base64ify b (if c then s_b64_chunk st else 0) (s_b64_sep st))
+  | FTxtRest, VStrs l => Ok (txt_to_text_style (s_txt_utf8 st) l)
+  | FAddr v6, VBytes b => if v6 then ipv6_ntoa b else ipv4_ntoa b
+  | _, _ => Internal eBadCase
+  end.
+
+Fixpoint print_fields (st : style) (fs : list tfield) (vs : list tval) : res (list Z) :=
+  match fs, vs with
+  | [], [] => Ok []
+  | [f], [v] => print_field st f v
+  | f :: fs', v :: vs' =>
+      do a <- print_field st f v; do b <- print_fields st fs' vs'; Ok (a ++ 32 :: b)
+  | _, _ => Internal eBadCase
+  end.
+
+(* ---------- parsing ---------- *)
+(* `relativize_to or origin`: an empty Name is falsy *)
+Definition relto_or_origin (c : pctx) : option name :=
+  match p_relativize_to c with
+  | Some (x :: r) => Some (x :: r)
+  | _ => p_origin c
+  end.
+
+(* Tokenizer.as_name for ASCII text (non-ASCII text goes through the IDNA codec: not modelled) *)
+Definition as_name (c : pctx) (t : token) : res name :=
+  if negb (is_identifier t) then Lib eSyntax
+  else
+    do n <- NameM.from_text (tvalue t) (p_origin c);
+    choose_relativity n (relto_or_origin c) (p_relativize c).
+
+Definition get_name (c : pctx) (st : tstate) : res (name * tstate) :=
+  do ts <- get0 st; do n <- as_name c (fst ts); Ok (n, snd ts).
+
+Definition rest_bytes (decode : list Z -> res (list Z)) (st : tstate) : res (tval * tstate) :=
+  do hs <- concatenate_remaining_identifiers st false;
+  do b <- utf8_encode (fst hs);
+  do d <- decode b;
+  Ok (VBytes d, snd hs).
+
+Definition parse_field (c : pctx) (f : tfield) (st : tstate) : res (tval * tstate) :=
+  match f with
+  | FDec maxv => do vs <- get_uint maxv st 10; Ok (VInt (fst vs), snd vs)
+  | FTtl => do vs <- get_ttl st; Ok (VInt (fst vs), snd vs)
+  | FQStr tokmax ctormax nonempty =>
+      do bs <- get_string_as_bytes st tokmax;
+      if negb (ctormax =? 0) && (zlen (fst bs) >? ctormax) then Internal iValueError
+      else if nonempty && is_nil (fst bs) then Lib eSyntax
+      else Ok (VBytes (fst bs), snd bs)
+  | FName => do ns <- get_name c st; Ok (VName (fst ns), snd ns)
+  | FHexRest => rest_bytes unhexlify st
+  | FB64Rest _ => rest_bytes b64decode st
+  | FTxtRest => do ss <- txt_from_text st; Ok (VStrs (fst ss), snd ss)
+  | FAddr v6 =>
+      do ts <- get_identifier st;
+      do b <- (if v6 then ipv6_aton (fst ts) else ipv4_aton (fst ts));
+      Ok (VBytes b, snd ts)
+  end.
+
+Fixpoint parse_fields (c : pctx) (fs : list tfield) (st : tstate) : res (list tval * tstate) :=
+  match fs with
+  | [] => Ok ([], st)
+  | f :: fs' =>
+      do vs <- parse_field c f st;
+      do rs <- parse_fields c fs' (snd vs);
+      Ok (fst vs :: fst rs, snd rs)
+  end.
+
+(* dns.rdata.from_text for a schema type; fw/tw = wire codec for the generic-syntax branch *)
+Definition record_from_text_gen (fw : list Z -> res (list tval)) (tw : list tval -> res (list Z))
+           (c : pctx) (fs : list tfield) (text : list Z) : res (list tval) :=
+  rdata_from_text (parse_fields c fs) fw tw text.
+
+Definition record_from_text (c : pctx) (fs : list tfield) (text : list Z) : res (list tval) :=
+  record_from_text_gen (fun _ => Internal iNotModelled) (fun _ => Internal iNotModelled) c fs text.
+
+Definition record_to_text (st : style) (fs : list tfield) (vs : list tval) : res (list Z) :=
+  print_fields st fs vs.
+
+(* ---------- the regular types ---------- *)
+Definition u8 := FDec 255. Definition u16 := FDec 65535. Definition u32 := FDec 4294967295.
+Definition cstr := FQStr 0 255 false.
+
+Definition schema_of (rdtype : Z) : option (list tfield) :=
+  if rdtype =? 1 then Some [FAddr false]                                            (* A *)
+  else if rdtype =? 28 then Some [FAddr true]                                       (* AAAA *)
+  else if rdtype =? 105 then Some [u16; FAddr false]                                (* L32 *)
+  else if (rdtype =? 2) || (rdtype =? 5) || (rdtype =? 12) || (rdtype =? 39) || (rdtype =? 23)
+  then Some [FName]                                        (* NS CNAME PTR DNAME NSAP-PTR *)
+  else if (rdtype =? 15) || (rdtype =? 18) || (rdtype =? 21) || (rdtype =? 36) || (rdtype =? 107)
+  then Some [u16; FName]                                   (* MX AFSDB RT KX LP *)
+  else if rdtype =? 6 then Some [FName; FName; u32; FTtl; FTtl; FTtl; FTtl]        (* SOA *)
+  else if rdtype =? 17 then Some [FName; FName]                                    (* RP *)
+  else if rdtype =? 26 then Some [u16; FName; FName]                               (* PX *)
+  else if rdtype =? 33 then Some [u16; u16; u16; FName]                            (* SRV *)
+  else if rdtype =? 13 then Some [FQStr 255 255 false; FQStr 255 255 false]        (* HINFO *)
+  else if rdtype =? 19 then Some [cstr]                                            (* X25 *)
+  else if rdtype =? 35 then Some [u16; u16; cstr; cstr; cstr; FName]               (* NAPTR *)
+  else if rdtype =? 256 then Some [u16; u16; FQStr 0 0 true]                       (* URI *)
+  else if (rdtype =? 52) || (rdtype =? 53) then Some [u8; u8; u8; FHexRest]        (* TLSA SMIMEA *)
+  else if rdtype =? 44 then Some [u8; u8; FHexRest]                                (* SSHFP *)
+  else if rdtype =? 49 then Some [FB64Rest true]                                   (* DHCID *)
+  else if rdtype =? 61 then Some [FB64Rest false]                                  (* OPENPGPKEY *)
+  else if (rdtype =? 16) || (rdtype =? 99) || (rdtype =? 258) || (rdtype =? 56)
+          || (rdtype =? 261) || (rdtype =? 262)
+  then Some [FTxtRest]                                     (* TXT SPF AVC NINFO RESINFO WALLET *)
+  else None.
+
+(* ---------- harness interface ---------- *)
+Definition obs_of_val (v : tval) : obs :=
+  match v with
+  | VInt z => I z
+  | VBytes b => B b
+  | VName n => obs_of_name n
+  | VStrs l => L (map B l)
+  end.
+
+Fixpoint vals_of_obs (fs : list tfield) (os : list obs) : option (list tval) :=
+  match fs, os with
+  | [], [] => Some []
+  | f :: fs', o :: os' =>
+      match vals_of_obs fs' os' with
+      | None => None
+      | Some r =>
+          match f, o with
+          | FDec _, I z => Some (VInt z :: r)
+          | FTtl, I z => Some (VInt z :: r)
+          | FQStr _ _ _, B b => Some (VBytes b :: r)
+          | FHexRest, B b => Some (VBytes b :: r)
+          | FB64Rest _, B b => Some (VBytes b :: r)
+          | FAddr _, B b => Some (VBytes b :: r)
+          | FName, L l => match name_of_obs l with Some n => Some (VName n :: r) | None => None end
+          | FTxtRest, L l => match strings_of_obs l with Some s => Some (VStrs s :: r) | None => None end
+          | _, _ => None
+          end
+      end
+  | _, _ => None
+  end.
+
+Definition style_of_obs (o : obs) : option style :=
+  match o with
+  | L [org; I rel; I hc; B hs; I bc; B bs; I u8] =>
+      match oname_of_obs org with
+      | Some og => Some (mkStyle og (rel =? 1) hc hs bc bs (u8 =? 1))
+      | None => None
+      end
+  | _ => None
+  end.
+
+Definition pctx_of_obs (o : obs) : option pctx :=
+  match o with
+  | L [org; I rel; relto] =>
+      match oname_of_obs org, oname_of_obs relto with
+      | Some og, Some rt => Some (mkPctx og (rel =? 1) rt)
+      | _, _ => None
+      end
+  | _ => None
+  end.
+
+Definition run_text (c : obs) : obs :=
+  match c with
+  | L [I 40; I rdtype; L vals; sty] =>
+      match schema_of rdtype, style_of_obs sty with
+      | Some fs, Some st =>
+          match vals_of_obs fs vals with
+          | Some vs => TokM.obs_of_res obs_of_text (record_to_text st fs vs)
+          | None => E eBadCase
+          end
+      | _, _ => E eBadCase
+      end
+  | L [I 41; I rdtype; t; ctx] =>
+      match schema_of rdtype, pctx_of_obs ctx, text_of_obs t with
+      | Some fs, Some pc, Some s =>
+          TokM.obs_of_res (fun vs => L (map obs_of_val vs)) (record_from_text pc fs s)
+      | _, _, _ => E eBadCase
+      end
+  | _ => TokM.run c
+  end.
 
 Definition run_addr (c : obs) : obs :=
   match c with
